@@ -254,7 +254,7 @@ def gen_cases(ctx):
     shapes = [(3, 3), (4, 2), (1, 1), (32, 32), (2, 5), (32, 1), (1, 32), (5, 2)]
     combos = []
     for i, d in enumerate(delims7):
-        for j, (ts, nt) in enumerate(shapes if (d in (":", "edu/") or not quick) else shapes[i % 4::4]):
+        for j, (ts, nt) in enumerate(shapes if not quick else shapes[:5] if d in (":", "edu/") else shapes[i % 4::4]):
             for pad in ("left", "right"):
                 for rev in (False, True):
                     if quick and d not in (":", "edu/") and (pad == "right") != rev:
@@ -265,8 +265,8 @@ def gen_cases(ctx):
     for d, ts, nt, pad, rev in combos:
         c = {"extensionName": name("0007"), "delimiter": d, "tupleSize": ts, "numberOfTuples": nt,
              "zeroPadding": pad, "reverseObjectRoot": rev}
-        ids = uniq(delim_ids(d, rng)[:30 if quick else 99] + width_ids(ts * nt, rng) + BASE_IDS[:34 if quick else 99] + BASE_IDS[-7:]
-                   + random_ids(rng, nrand, list(d)))
+        ids = uniq(delim_ids(d, rng)[:24 if quick else 99] + width_ids(ts * nt, rng) + BASE_IDS[:16 if quick else 99] + BASE_IDS[-7:]
+                   + (BASE_IDS[34:52:3] if quick else []) + random_ids(rng, nrand, list(d)))
         if quick and (ts, nt) == (32, 32):
             ids = ids[:25]
         cases.append(("0007", c, ids))
@@ -467,6 +467,9 @@ def function_level(ctx, vh, known_ids, stats):
         oracle_ok = bool(m & 2) and bool(m & 8)
         model_ok = bool(m & 1)
         inp = {"level": "StorageLayout::new", "ext": EXTS[k][1], "config": text}
+        if not m & 256:
+            common.corr_break(ctx, "Corr.CheckLayout: driver inputs not well-formed (strings of the configuration)", {"input": inp, "mask": m})
+            continue
         if det and not oracle_ok:
             slugs = [SLUG_NEW[bit] for bit in SLUG_NEW if m & (1 << bit)]
             slugs = [s for s in slugs if s in known_ids]
